@@ -21,7 +21,8 @@ import (
 // removes it — what format/tls does), observed after every step through the real JQValue* methods:
 //   `B add <hexname> ; rm <hexname> ; …`  TAB  `<snapshot> ; <snapshot> ; …`
 //   snapshot = K<names of Children,>  H<has(k) for every name of the history, 0/1>  V<.k: the field's number or ->,…
-//   or `fatal` when the decoder stopped (a name that "already exists", a Remove error); the history ends there.
+//   or `fatal <snapshot>` when the decoder stopped (a name that "already exists", a Remove error): the struct as the
+//   stopped decoder left it; the history ends there.
 // JQValueKey/JQValueHas answer from Compound.ByName, JQValueKeys from Compound.Children.
 
 type bop struct {
@@ -126,7 +127,8 @@ func runBuilder(d *decode.D) {
 			d.FieldValueUint(op.name, uint64(i+1))
 		}()
 		if failed {
-			builderObs = append(builderObs, "fatal")
+			// the decoder stopped: the struct must be as it was before the refused call
+			builderObs = append(builderObs, "fatal "+builderSnapshot(d, universe))
 			return
 		}
 		builderObs = append(builderObs, builderSnapshot(d, universe))
